@@ -61,8 +61,8 @@ entry named by the last step inside the node at the location of the match's pare
 theorem popMatch_refines (stepsOf : Heap → List (Step Val)) (root : Val) (j : J) (h h' : Heap) (mm : Bool)
     (m : MNode Val) (hi : DocInv h root j)
     (hpop : popMatch stepsOf (.doc root) mm h = (h', .ok (some m))) :
-    ∃ p nm j', m.parent = some p ∧ J.popAt j p.loc nm = some j' ∧ DocInv h' root j' ∧
-      ∀ x ∈ fpJ h' j' root, x ∈ fpJ h j root := by
+    ∃ p nm j', m.parent = some p ∧ (stepsOf h).getLast? = some (nameStepV nm) ∧ J.popAt j p.loc nm = some j' ∧
+      DocInv h' root j' ∧ ∀ x ∈ fpJ h' j' root, x ∈ fpJ h j root := by
   simp only [popMatch] at hpop
   split at hpop
   · simp at hpop
@@ -72,9 +72,9 @@ theorem popMatch_refines (stepsOf : Heap → List (Step Val)) (root : Val) (j : 
       simp only [Prod.mk.injEq, Except.ok.injEq, Option.some.injEq] at hpop
       obtain ⟨rfl, rfl⟩ := hpop
       have hgen := getMatch_gen (wcx h) (heapwf_keysUniq hi.wf) _ root mm m0 hg
-      obtain ⟨p, nm, j', e1, e2, e3, e4, e5⟩ := vertexPop_refold h h2 _ m0 root j hvp hi.unf hi.sep
+      obtain ⟨p, nm, j', e1, e0, e2, e3, e4, e5⟩ := vertexPop_refold h h2 _ m0 root j hvp hi.unf hi.sep
         (fun p hp => gen_walk (hview h) root p (gen_parent (hview h) root m0 p hgen hp))
-      exact ⟨p, nm, j', e1, e2, ⟨e3, e4, vertexPop_wf hi.wf _ m0 hvp⟩, e5⟩
+      exact ⟨p, nm, j', e1, e0, e2, ⟨e3, e4, vertexPop_wf hi.wf _ m0 hvp⟩, e5⟩
     · simp at hpop
   · simp at hpop
 
@@ -140,7 +140,7 @@ theorem histories_keep_the_document_a_tree (root : Val) (ops : List WOp) (hops :
       rcases hr : popMatch path (.doc root) mm h with ⟨h', r⟩
       by_cases hs : ∃ m, r = .ok (some m)
       · obtain ⟨m, rfl⟩ := hs
-        obtain ⟨_, _, j1, _, _, i2, _⟩ := popMatch_refines path root j h h' mm m hi hr
+        obtain ⟨_, _, j1, _, _, _, i2, _⟩ := popMatch_refines path root j h h' mm m hi hr
         exact ih hrest h' j1 i2
       · have := popMatch_other path (.doc root) h h' mm r hr (fun m e => hs ⟨m, e⟩)
         rw [this]; exact ih hrest h j hi
